@@ -29,8 +29,8 @@ Print Assumptions bridge_cond_commit.
 Lemma bridge_expand : forall o, gen_expand o = expand o.
 Proof.
   intros o. destruct o; try reflexivity;
-    (* InsertManyRejected: the generated script ends with `++ []` *)
-    try (cbv [gen_expand gen_script_insert_many_upserts expand]; apply app_nil_r).
+    (* scripts that end with a stuck list: the generated text has a trailing `++ []` *)
+    try (cbv [gen_expand gen_script_insert_many_failed expand]; rewrite ?app_nil_r; reflexivity).
 Qed.
 Print Assumptions bridge_expand.
 
